@@ -130,7 +130,7 @@ def source_name(g):
         stem = "cleansrc" if m == "never" else "taintsrc"
         return "call_stmt", stem + suffix
     if sk == "mcall":
-        return "object_call", f"conn{suffix}.recvdata{suffix}"
+        return ("object_call", "object_call_stmt")[gid % 2], f"conn{suffix}.recvdata{suffix}"
     if sk == "param":
         if m == "away:operation":
             return "call_stmt", "preq" + suffix          # a call rule; the program has a parameter of that name
@@ -150,7 +150,7 @@ def sink_name(g):
     if tk == "mcall":
         if m == "away:operation":
             return "call_stmt", f"dbh{suffix}.execq{POS_LETTER[g['pos']]}{suffix}"   # a call rule with a dotted name
-        return "object_call", f"dbh{suffix}.execq{POS_LETTER[g['pos']]}{suffix}"
+        return ("object_call", "object_call_stmt")[(gid // 2) % 2], f"dbh{suffix}.execq{POS_LETTER[g['pos']]}{suffix}"
     if tk == "fwrite":
         return "field_write", f"outobj{suffix}.dangerfld{suffix}"
     return "record_write", f'"dangerkey{suffix}"'
@@ -775,7 +775,7 @@ class Closure:
     call to a function / method defined in the program depends on what that function returns (ret:<name>), its arguments
     flow to its parameters by position / keyword; the result of any other call depends on all arguments and the receiver,
     and such a method call may store its arguments in its receiver.  Reading a field that the program itself never writes
-    depends on the receiver.  Relaxations (for naming the reason of a failure only): 'callee' = calls to program functions
+    depends on the receiver.  A field-read source taints the field (all reads of that field name), not only its own statement.  Relaxations (for naming the reason of a failure only): 'callee' = calls to program functions
     are additionally treated as unknown code; 'field' = a field read also depends on the receiver and all fields are one."""
 
     def __init__(self, files, source_sites, relax=()):
@@ -813,6 +813,10 @@ class Closure:
                     for al in n.names:
                         if isinstance(n, ast.Import):
                             self.modules.add((al.asname or al.name).split(".")[0])
+        # a field-read source taints the field itself (location-based): another read of the same field yields the same datum
+        for s in source_sites:
+            if s.kind == "fread" and isinstance(s.node, ast.Attribute):
+                self._edge(self._fld(s.node.attr), {f"src:{s.file}:{s.line}"})
         method_nodes = {id(m) for lst in self.funcs.values() for m, im in lst if im}
         for fn, tree in self.trees.items():
             for n in ast.walk(tree):
